@@ -34,7 +34,8 @@ def gen_program(r: Any, kind: str) -> dict:
     for _ in range(r.randint(1, 4)):
         mode = r.choice(["imm", "rel", "rel", "rel_td", "abs"])
         # (delays that are not whole milliseconds: a scheduler that rounds a delay down starts its action early)
-        delay = 0.0 if mode == "imm" else r.choice([-0.1, 0.0, 0.1, 0.2, 0.2, 0.5, 0.0004, 0.0105, 0.2345])
+        # ... or not whole MICROseconds (1/3 s, 0.4 us): a float delay must not take a detour through timedelta
+        delay = 0.0 if mode == "imm" else r.choice([-0.1, 0.0, 0.1, 0.2, 0.2, 0.5, 0.0004, 0.0105, 0.2345, 1.0 / 3.0, 4e-7])
         eff = max(0.0, delay)
         cancel = r.choice([None, None, 0.0, eff / 2, eff, eff, eff + 0.1]) if eff > 0 else r.choice([None, None, 0.0])
         items.append({"mode": mode, "delay": delay, "cancel_after": cancel})
@@ -75,8 +76,20 @@ def scenario(c: Any, P: dict) -> dict:
         return act
 
     for i, it in enumerate(P["items"]):
-        due = c.clock + max(0.0, it["delay"])
-        info[i] = {"due": due, "starts": []}
+        # what the CALLER asked for: a float delay exactly; a timedelta / datetime argument only has microsecond resolution, so the
+        # request itself is the rounded value (and an absolute time is compared with a microsecond-rounded `now`)
+        # (the event-loop based schedulers keep due times as datetimes: up to a microsecond of rounding is their resolution, not
+        #  an early start; TimeoutScheduler hands float seconds straight to its timer and has no such excuse)
+        coarse = kind != "timeout"
+        if it["mode"] == "rel_td":
+            eff = max(0.0, datetime.timedelta(seconds=it["delay"]).total_seconds())
+            tol = 1.5e-6 if coarse else 5e-9
+        elif it["mode"] == "abs":
+            eff, tol = max(0.0, it["delay"]), 1.5e-6
+        else:
+            eff, tol = max(0.0, it["delay"]), (1.5e-6 if coarse else 5e-9)
+        due = c.clock + eff
+        info[i] = {"due": due, "starts": [], "tol": tol}
         c.log("sched", i, it["mode"], due)
         if it["mode"] == "imm":
             d = s.schedule(make(i))
@@ -112,7 +125,7 @@ def scenario(c: Any, P: dict) -> dict:
         cr = it.get("cancel_ret")
         if st is not None:
             started += 1
-            if st[1] < it["due"] - 1e-6:
+            if st[1] < it["due"] - it["tol"]:
                 viol.append(("C34:%s:%s:started-before-due" % (kind, P["items"][i]["mode"]), {"item": i, "due": it["due"] - t0, "clock": st[1] - t0}))
         if cr is not None and cr[1] < it["due"] - 1e-6:
             before += 1
